@@ -11,7 +11,25 @@ Sanity facts the model hard-codes (any other shape is a broken tie -> ExtractErr
 recursive `simulate` calls are under `depth + 1 < maxDepth_ && !isTerminal(s1)` (rPOMCP: additionally
 `!newNode`), the recursion passes `depth + 1`, `runSimulation` starts at depth 0 with `maxDepth_ = horizon`,
 `rollout` loops `depth < maxDepth` and returns early on a terminal state, the action update is the
-incremental mean."""
+incremental mean.
+Round 3 (rPOMCPGraph.hpp, the head node's sampling belief; AITB.Props.C19b):
+  sampleWalkStop : `HeadBeliefNode::sampleBelief()` returns the entry at which `pick < sampleWalkStop` after subtracting its
+        count (1 in the source); the model's `R.sampleWalk` uses this constant, `R.sampleWalk_spec` needs it to be 1.
+  sampleDrawLo : the draw is `uniform_int_distribution<unsigned>(sampleDrawLo, beliefSize_)`.
+Sanity facts (ExtractError otherwise): the walk subtracts `sampleBelief_[index].second` before the test and advances `index` by
+one; the promotion constructor starts `beliefSize_` at 0, emplaces `(pair.first, pair.second.N)` for every entry of
+`trackBelief_` and adds `pair.second.N`; `getMostCommonParticle` starts at count 0 and moves on `pair.second > bestGuessCount`,
+assigning both; max-of-belief `updateBeliefAndKnowledge` counts first, moves `maxS_` on strict `>`, divides by `N+1`;
+`rPOMCP::simulate` calls `updateBeliefAndKnowledge(s1)` on the child before the depth test and does `ot->second.N += 1` in the
+leaf branch; the datapoint passed upwards is `(b.N - 1)*(b.V - oldV) + b.V`; POMCP / the head node sample their particles with
+`sampleProbability(S, b, ·)`, `S` being the size of the belief; dense `sampleProbability` returns an index only under
+`in[i] > p` (so never a zero entry) or the fallback `d-1`.
+  mctsAdvGuard / pomcpAdvGuard : `sampleAction(a, key, horizon)` tests `a >= graph_.children.size()` (and restarts) before it
+        indexes `graph_.children[a]` (repaired, fixes/C19-3) or indexes unconditionally (as first read: undefined behaviour on a
+        planner that has not been called yet).  Any other opening of the function is an ExtractError.
+  rpomcpLeafV : the leaf branch of `rPOMCP::simulate` averages the datapoint it passes upwards into the leaf's own `V`
+        (repaired, fixes/C19-4) or leaves `V` alone (as first read: a later descent through the node then adds `N` copies of
+        the new value on top of the leaf datapoints, and action values leave the range of achievable returns)."""
 import re
 import extract as E
 
@@ -19,6 +37,8 @@ MCTS = 'include/AIToolbox/MDP/Algorithms/MCTS.hpp'
 POMCP = 'include/AIToolbox/POMDP/Algorithms/POMCP.hpp'
 RPOMCP = 'include/AIToolbox/POMDP/Algorithms/rPOMCP.hpp'
 ROLL = 'include/AIToolbox/MDP/Algorithms/Utils/Rollout.hpp'
+GRAPH = 'include/AIToolbox/POMDP/Algorithms/Utils/rPOMCPGraph.hpp'
+PROB = 'include/AIToolbox/Utils/Probability.hpp'
 
 
 def norm(s):
@@ -102,6 +122,73 @@ def check_runsim(src, cls, what):
         raise E.ExtractError(f'{what}::runSimulation: unexpected shape')
 
 
+def need(cond, what):
+    if not cond:
+        raise E.ExtractError(what)
+
+
+def check_graph(gs, rs, ps, prob):
+    """rPOMCPGraph.hpp (+ the call sites in rPOMCP.hpp / POMCP.hpp, sampleProbability): facts AITB.Props.C19b depends on"""
+    sb, _ = body(gs, r'size_t\s+HeadBeliefNode<UseEntropy>::sampleBelief\s*\(\s*\)\s*const\s*\{', 'HeadBeliefNode::sampleBelief')
+    nb = norm(sb)
+    m = re.search(r'std::uniform_int_distribution<unsigned>generator\((\d+),beliefSize_\);intpick=generator\(\*rand_\);', nb)
+    need(m, 'HeadBeliefNode::sampleBelief: draw is not uniform_int_distribution<unsigned>(k, beliefSize_)')
+    draw_lo = int(m.group(1))
+    m = re.search(r'size_tindex=0;while\(true\)\{pick-=sampleBelief_\[index\]\.second;if\(pick<(\d+)\)returnsampleBelief_\[index\]\.first;\+\+index;\}', nb)
+    need(m, 'HeadBeliefNode::sampleBelief: the walk is not `pick -= count; if ( pick < k ) return state; ++index;`')
+    walk_stop = int(m.group(1))
+    # promotion constructor
+    m = E.find1(r'HeadBeliefNode<UseEntropy>::HeadBeliefNode\s*\(\s*const\s+size_t\s+A\s*,\s*BeliefNode<UseEntropy>\s*&&\s*bn\s*,[^)]*\)\s*:([^{]*)\{', gs, 'HeadBeliefNode promotion constructor')
+    need('beliefSize_(0)' in norm(m.group(1)), 'HeadBeliefNode promotion constructor: beliefSize_ does not start at 0')
+    cb = norm(block_at(gs, gs.index('{', m.end() - 1)))
+    need('for(auto&pair:this->trackBelief_){sampleBelief_.emplace_back(pair.first,pair.second.N);beliefSize_+=pair.second.N;}' in cb,
+         'HeadBeliefNode promotion constructor: not one (state, count) pair per particle-map entry with beliefSize_ += count')
+    need(cb.index('for(auto&pair:this->trackBelief_)') < cb.index('swap(this->trackBelief_)'),
+         'HeadBeliefNode promotion constructor: the particle map is cleared before it is copied')
+    # most common particle
+    mb, _ = body(gs, r'size_t\s+HeadBeliefNode<UseEntropy>::getMostCommonParticle\s*\(\s*\)\s*const\s*\{', 'getMostCommonParticle')
+    nmb = norm(mb)
+    need('unsignedbestGuessCount=0;' in nmb and
+         'for(auto&pair:sampleBelief_){if(pair.second>bestGuessCount){bestGuessCount=pair.second;bestGuess=pair.first;}}returnbestGuess;' in nmb,
+         'getMostCommonParticle: not the strict-> scan from count 0 assigning count and state')
+    # max-of-belief update
+    ub, _ = body(gs, r'void\s+BeliefNode<false>::updateBeliefAndKnowledge\s*\(\s*const\s+size_t\s+s\s*\)\s*\{', 'BeliefNode<false>::updateBeliefAndKnowledge')
+    need(norm(ub) == '{trackBelief_[s].N+=1;if(trackBelief_[s].N>trackBelief_[maxS_].N)maxS_=s;knowledgeMeasure_=static_cast<double>(trackBelief_[maxS_].N)/static_cast<double>(N+1);}',
+         'BeliefNode<false>::updateBeliefAndKnowledge: unexpected shape')
+    # the head built from a belief
+    need('generatedSamples[AIToolbox::sampleProbability(S,b,*rand_)]+=1;' in norm(gs) and 'size_tS=b.size();' in norm(gs),
+         'HeadBeliefNode(belief): particles are not drawn with sampleProbability(b.size(), b, ·)')
+    # rPOMCP::simulate: particle first, count afterwards
+    rb, _ = body(rs, r'double\s+rPOMCP<M,\s*UseEntropy>::simulate\s*\([^)]*\)\s*\{', 'rPOMCP::simulate')
+    nrb = norm(rb)
+    need('ot->second.updateBeliefAndKnowledge(s1);' in nrb and nrb.index('ot->second.updateBeliefAndKnowledge(s1);') < nrb.index('if(depth+1<maxDepth_'),
+         'rPOMCP::simulate: the child does not receive its particle before the depth test')
+    m = re.search(r'else\{ot->second\.N\+=1;if\(depth\+1>=maxDepth_\)immAndFutureRew=ot->second\.getKnowledgeMeasure\(\);'
+                  r'(ot->second\.V\+=\(immAndFutureRew-ot->second\.V\)/static_cast<double>\(ot->second\.N\);)?\}', nrb)
+    need(m, 'rPOMCP::simulate: leaf branch is not `N += 1; if (depth + 1 >= maxDepth_) datapoint = knowledge measure; [V += (datapoint - V) / N]`')
+    leaf_v = m.group(1) is not None
+    need('return(b.N-1)*(b.V-oldV)+b.V;' in nrb, 'rPOMCP::simulate: the datapoint passed upwards is not (b.N - 1)*(b.V - oldV) + b.V')
+    # POMCP: root belief
+    need('belief.push_back(sampleProbability(S,b,rand_));' in norm(ps) and 'S(model_.getS())' in norm(ps),
+         'POMCP::makeSampledBelief: particles are not drawn with sampleProbability(S, b, rand_)')
+    # dense sampleProbability: an index is returned only where in[i] > p, or the fallback d-1
+    m = E.find1(r'size_t\s+sampleProbability\s*\(\s*const\s+size_t\s+d\s*,\s*const\s+T\s*&\s*in\s*,\s*G\s*&\s*generator\s*\)\s*\{', prob, 'dense sampleProbability')
+    pb = norm(block_at(prob, prob.index('{', m.end() - 1)))
+    need(pb == '{doublep=probabilityDistribution(generator);for(size_ti=0;i<d;++i){if(in[i]>p)returni;p-=in[i];}returnd-1;}',
+         'dense sampleProbability: unexpected shape')
+    return walk_stop, draw_lo, leaf_v
+
+
+def adv_guard(src, header_re, guarded_re, plain_re, what):
+    b, _ = body(src, header_re, what)
+    nb = norm(b)
+    if re.match(guarded_re, nb):
+        return True
+    if re.match(plain_re, nb):
+        return False
+    raise E.ExtractError(f'{what}: unexpected opening of the advancing sampleAction')
+
+
 def gen_c19():
     ms = E.strip_comments(E.read(MCTS))
     ps = E.strip_comments(E.read(POMCP))
@@ -126,6 +213,13 @@ def gen_c19():
     if nro.count('for(unsigneddepth=0;depth<maxDepth;++depth)') != 2 or nro.count('if(m.isTerminal(s))returntotalRew;') != 2 \
             or nro.count('totalRew+=gamma*rew;') != 2 or nro.count('gamma*=m.getDiscount();') != 2:
         raise E.ExtractError('Rollout.hpp: unexpected loop shape')
+    madv = adv_guard(ms, r'size_t\s+MCTS<M,\s*StateHash>::sampleAction\s*\(\s*const\s+size_t\s+a\s*,[^)]*\)\s*\{',
+                     r'\{if\(a>=graph_\.children\.size\(\)\)returnsampleAction\(s1,horizon\);auto&states=graph_\.children\[a\]\.children;',
+                     r'\{auto&states=graph_\.children\[a\]\.children;', 'MCTS::sampleAction(a, s1, horizon)')
+    padv = adv_guard(ps, r'size_t\s+POMCP<M>::sampleAction\s*\(\s*const\s+size_t\s+a\s*,[^)]*\)\s*\{',
+                     r'\{if\(a>=graph_\.children\.size\(\)\)\{(AI_LOGGER\([^;]*\);)?autob=Belief\(S\);b\.fill\(1\.0/S\);returnsampleAction\(b,horizon\);\}constauto&obs=graph_\.children\[a\]\.children;',
+                     r'\{constauto&obs=graph_\.children\[a\]\.children;', 'POMCP::sampleAction(a, o, horizon)')
+    walk_stop, draw_lo, leaf_v = check_graph(E.strip_comments(E.read(GRAPH)), rs, ps, E.strip_comments(E.read(PROB)))
     b = lambda x: 'true' if x else 'false'
     i = lambda k: f'({k})' if k < 0 else str(k)
     out = f'''/- GENERATED by tools/extract_c19.py from {MCTS}, {POMCP}, {RPOMCP}, {ROLL} — do not edit. -/
@@ -137,6 +231,17 @@ def mctsRollOff : Int := {i(moff)}
 def pomcpRollOff : Int := {i(poff)}
 /-- {POMCP}:{pln} `POMCP::simulate`: the rollout is under `depth + 1 < maxDepth_ && !isTerminal(s1)` -/
 def pomcpRollGuard : Bool := {b(pguard)}
+/-- {MCTS} `MCTS::sampleAction(a, s1, horizon)` tests `a >= graph_.children.size()` before indexing `graph_.children[a]` -/
+def mctsAdvGuard : Bool := {b(madv)}
+/-- {POMCP} `POMCP::sampleAction(a, o, horizon)` tests `a >= graph_.children.size()` before indexing `graph_.children[a]` -/
+def pomcpAdvGuard : Bool := {b(padv)}
+/-- {RPOMCP} `rPOMCP::simulate`, leaf branch: the datapoint passed upwards is also averaged into the leaf's own value
+    (`ot->second.V += (immAndFutureRew - ot->second.V) / N`; repaired form, fixes/C19-4) -/
+def rpomcpLeafV : Bool := {b(leaf_v)}
+/-- {GRAPH} `HeadBeliefNode::sampleBelief`: after `pick -= count` the walk stops when `pick < sampleWalkStop` -/
+def sampleWalkStop : Int := {walk_stop}
+/-- {GRAPH} `HeadBeliefNode::sampleBelief`: the draw is uniform on `[sampleDrawLo, beliefSize_]` -/
+def sampleDrawLo : Int := {draw_lo}
 
 end AITB.Gen.C19
 '''
